@@ -19,6 +19,7 @@ var tlsSM4GCM func(key, nonce12, plaintext, aad []byte) []byte
 
 func runC12(c *Ctx) {
 	rep := c.Rep
+	defer runFirstOps(c) // fresh child processes whose first gmsm call is one operation of this property
 	rep.FineDistinct()
 	rep.Meta("cases: (key, IV, A, P) tuples: exhaustive |A|,|P| grid 0..80 at |IV|=12; |IV| in 1..64; IVs with 0xff bytes / counter blocks at the 32-bit wrap; lengths to 64 KiB; single-bit authentication sweep over K/IV/A/C/T. Oracle: GCM of crypto/cipher over the reference SM4 (and over sm4.NewCipher, and the TLS stack's SM4-GCM construction for 12-byte nonces); decrypt inverse; tag sensitivity; caller memory untouched. Distinct non-trivial = distinct (ivlen, |A|, |P|, iv-class) with |A|+|P|>0.",
 		3000, []string{"crypto/cipher GCM (generic path) over ref SM4; RFC 8998 A.1 vector at start of run"},
